@@ -344,6 +344,10 @@ def cases(ctx):
                 for body in [0, (1 << w) - 1] + [rng.fill(w) for _ in range(6 if quick else 40)]:
                     fr.append("%0*X" % (n // 4, bits.with_pi((df << w) | body, n, rng.fill(24))))
                     fr.append("%0*X" % (n // 4, (df << (n - 5)) | (body << 24 >> 0) & ((1 << (n - 5)) - 1)))  # no valid parity
+                # small parity overlays: for DF11 the overlay is the interrogator code (II 0-15, SI 16-79, beyond = corrupt) -
+                # random frames only ever reach the "corrupt" branch
+                for ov in (range(128) if df == 11 else (0, 1, 15, 16, 63, 64, 79, 80, 127)):
+                    fr.append("%0*X" % (n // 4, bits.with_pi((df << w) | rng.fill(w), n, ov)))
                 fr.append("0" * (n // 4 - 1) + "0")
                 fr.append("F" * (n // 4))
                 fr.append(("%0*X" % (n // 4, bits.with_pi((df << w) | rng.fill(w), n, 5))).lower())
